@@ -901,7 +901,7 @@ def G15_order_and_bucket_pitfalls(repo, clause, scope=ALL_LIB):
                 for f2 in repo.all_fns():
                     if f2.outer is fn and any(y is c for y in ast.walk(f2.node)):
                         holder = f2
-                coordy = any(isinstance(y, ast.Name) and ("pos" in y.id.lower() or y.id in ("p1", "p2", "xyz")) for y in ast.walk(c.args[0]))
+                coordy = any(isinstance(y, ast.Name) and ("pos" in y.id.lower() or "mass" in y.id.lower() or y.id in ("p1", "p2", "xyz", "m")) for y in ast.walk(c.args[0]))
                 keyed = False
                 if holder is not fn:
                     # a nested key helper: used in setdefault / get / subscripts / `in`
@@ -918,8 +918,8 @@ def G15_order_and_bucket_pitfalls(repo, clause, scope=ALL_LIB):
                 if coordy and keyed:
                     n += 1
                     obs.append(Ob("G15", clause, fn, c, False,
-                                  "`%s` in %s turns coordinates into bucket keys at the resolution of `%s`: points closer than the tolerance are told apart whenever a rounding boundary lies between them, "
-                                  "so `distance < %s` is not what the lookup decides" % (ast.unparse(c)[:50], fn.qualname, tol_params[0], tol_params[0]),
+                                  "`%s` in %s turns the compared quantity into bucket keys while the function promises a tolerance `%s`: two values closer than the tolerance are told apart whenever a "
+                                  "rounding boundary lies between them (35.45 and 35.5 round to different integers), so `difference < %s` is not what the lookup decides" % (ast.unparse(c)[:50], fn.qualname, tol_params[0], tol_params[0]),
                                   slot="rounded-keys:%s" % fn.qualname, positive="robust"))
     obs.append(Ob("G15", clause, fns[0], fns[0].node, True, "%d functions in scope, %d order-pairing / bucket-key constructs flagged" % (len(fns), n), construct="order and bucket inventory", slot="inventory"))
     return obs
